@@ -386,6 +386,40 @@ theorem sizeMult_ne_keyError (r2 : List Sym) : sizeMult Generated.Config.size_mu
       rcases ha'' with e | e | e | e | e | e | e <;> rcases hb'' with f | f <;> rw [e, f] at hnone <;>
         revert hnone <;> decide
 
+/-- completeness of the size recogniser, final newline included -/
+theorem parseSize_complete (ds : List (Fin 10)) (mid w tail : List Sym) (i : Nat) (bin hasB : Bool)
+    (hds : ds ≠ []) (hmid : mid.all isWs = true) (htail : tail = [] ∨ tail = [Sym.nl]) (hi : i ≤ 6)
+    (hw : w.map upperSym = wordSyms (sizeSuffix i bin hasB)) :
+    parseSize (ds.map Sym.dig ++ mid ++ w ++ tail) = .ok (num ds * sizeBase bin ^ i) := by
+  have hne : (ds.map Sym.dig ++ mid ++ w ++ tail).isEmpty = false := by cases ds <;> simp_all
+  have hds' : ds.isEmpty = false := by cases ds <;> simp_all
+  have htail' : tail.map upperSym = tail := by rcases htail with rfl | rfl <;> rfl
+  have htws : tail.all isWs = true := by rcases htail with rfl | rfl <;> rfl
+  have hnd : headNotDig tail = true := by rcases htail with rfl | rfl <;> rfl
+  have hi7 : i = 0 ∨ i = 1 ∨ i = 2 ∨ i = 3 ∨ i = 4 ∨ i = 5 ∨ i = 6 := by omega
+  have hcore : sizeMult Generated.Config.size_multipliers (wordSyms (sizeSuffix i bin hasB) ++ tail) = .ok (sizeBase bin ^ i) := by
+    rcases hi7 with rfl | rfl | rfl | rfl | rfl | rfl | rfl <;> cases bin <;> cases hasB <;>
+      rcases htail with rfl | rfl <;> decide
+  have hcore0 : sizeMult Generated.Config.size_multipliers [] = .ok (sizeBase bin ^ 0) := by cases bin <;> decide
+  have hdig : headNotDig (mid ++ (wordSyms (sizeSuffix i bin hasB) ++ tail)) = true :=
+    headNotDig_ws_append _ _ hmid (headNotDig_wordSyms _ _ hnd)
+  unfold parseSize parseSizeWith
+  rw [if_neg (by rw [hne]; simp)]
+  simp only [List.map_append, map_upperSym_dig, map_upperSym_ws mid hmid, hw, htail', List.append_assoc,
+    takeDigits_map_dig _ _ hdig, hds', Bool.false_eq_true, if_false, dropWs_append_ws _ _ hmid]
+  by_cases hnil : sizeSuffix i bin hasB = []
+  · have hi0 : i = 0 := by
+      rcases hi7 with rfl | rfl | rfl | rfl | rfl | rfl | rfl <;> cases bin <;> cases hasB <;> simp [sizeSuffix] at hnil ⊢
+    subst hi0
+    rw [hnil]
+    have : dropWs (wordSyms [] ++ tail) = [] := by rcases htail with rfl | rfl <;> rfl
+    rw [this, hcore0]
+  · have hws : headNotWs (wordSyms (sizeSuffix i bin hasB) ++ tail) = true := by
+      cases hsfx : sizeSuffix i bin hasB with
+      | nil => exact absurd hsfx hnil
+      | cons c cs => simp [wordSyms, headNotWs, isWs]
+    rw [dropWs_of_headNotWs _ hws, hcore]
+
 /-! ### calendar -/
 
 theorem daysBeforeYear_succ (y : Nat) (hy : 1 ≤ y) :
